@@ -5,6 +5,9 @@ HERE = os.path.dirname(os.path.dirname(os.path.abspath(__file__)))
 BASE = json.load(open('/root/.vp/BASELINE.json'))
 
 CHECKS = {
+ 'C06': dict(cat='fault_enumeration', sec='3/C06', technique='runtime monitoring with crash-fault enumeration: the store runs in a forked child whose k-th raw file-system operation is replaced by process death (page-aligned torn writes included); a fresh reader in the parent judges every address against {previous, new, missing-if-allowed}',
+   text='For file cache (plain, symlinked, hardlinked single-colour tiles), compact v1/v2 (single, bulk within and across bundles, overwrite, remove, index slots straddling a page), legend cache and seed progress file, with empty / populated / previously-crashed prior contents and 200 B-300 kB payloads, the real store executes in a child process under raw-I/O failpoints; the child is killed before every operation index 0..N (all in thorough; all non-write ops, all torn writes and a sample of plain writes in quick) and after a page-aligned prefix of every write crossing a 4096 boundary. After each crash a fresh cache object must return previous content, complete new content, or missing where the statement allows it, for batch and bystander addresses, and an ordinary store afterwards must succeed. This is enumeration of the crash points of the generated scenarios, not of all scenarios.',
+   note='trusted: the failpoint layer (io.FileIO subclass under the normal buffered objects, wrapped os.* calls), fork/os._exit as a stand-in for SIGKILL. Crash model = process death only; torn writes only at page-aligned offsets. Known finding C06-compact-v1-index-entry-straddles-page is reported as KNOWN-FINDING.'),
  'C07': dict(cat='exploration', sec='3/C07', technique='runtime monitoring under a cooperative scheduler: real FileLock/SemLock contenders serialised at open/flock/stat/close/gc-close/remove/sleep with a virtual clock; holder-count monitor, timeout oracle, re-acquire probe; random/PCT schedules + preemption-bounded exhaustive DFS',
    text='2-4 contenders x 1-3 lock/unlock cycles on one path run through the repository\'s FileLock (keep-file and remove-on-unlock) and SemLock (n=1..3); every file-system call of the lock code is a scheduling point owned by a deterministic scheduler, time is virtual. Monitors: number of contenders inside <= 1 (<= n), LockTimeout only after the full timeout and only if every failed flock attempt happened while another contender held/was acquiring/releasing, a fresh lock succeeds after all finished, no deadlock. Small configurations are enumerated completely up to a preemption bound (sleep = yield); larger ones are sampled with random and PCT strategies. Every run is a replayable trace.',
    note='trusted: the scheduler and the module-attribute proxies (lockfile.open/fcntl/os, lock.os/time/random); threads with separate open() calls stand in for processes because flock is per open file description; code between scheduling points is atomic; cleanup_lockdir excluded.'),
